@@ -110,7 +110,7 @@ class Chooser:
         self.points = []    # per multi-option point: (n_options, chosen, [(cost, fault)] per option, labels)
         self.keys   = None  # optional list of expected action keys for divergence detection
 
-    def choose(self, acts):
+    def choose(self, acts, now=0):
         n = len(acts)
 
         if n == 1:
@@ -126,7 +126,7 @@ class Chooser:
         else:
             c = 0
 
-        self.points.append((n, c, [(a.cost, a.fault) for a in acts], acts[c].key()))
+        self.points.append((n, c, [(a.cost, a.fault) for a in acts], acts[c].key(), now))
 
         return c
 
@@ -532,7 +532,7 @@ class World:
 
             self.fingerprints.add(self.fingerprint())
 
-            a = acts[self.chooser.choose(acts)]
+            a = acts[self.chooser.choose(acts, self.now)]
 
             self.nsteps       += 1
             self.ntransitions += 1
